@@ -82,8 +82,10 @@ ASSUMPTIONS = [
     "the property demands an unsuccessful run for every fault at a SIGNING call (error return, corrupted / truncated / wrong-key / wrong-hash signature); an error return at another token operation while the key is also present elsewhere is judged by 'only the fault-free SKR may result' and by the model (which propagates search / attribute-read errors as the unchanged code does) — a behaviour change there is reported as a model/implementation disagreement",
     "an error return of C_OpenSession / C_Login on one slot is not counted among the faults that must end the run: the code documents that such a slot is skipped ('not an error if one or more slots succeeded') and the model follows it; with the KSK also present in another slot the ceremony then completes with the fault-free SKR (counted in stats as session-setup-error:…)",
     "an object search that wrongly answers 'nothing here' (fault kind missing) cannot be told from a slot that does not hold the key: with a second copy elsewhere the search legitimately goes on; only the fault-free SKR may result",
+    "file-name faults: the file that is asked for is the one the command line names, else the one the configuration names (documented precedence, the model's pickFile); a broken name in the configuration that the command line overrides may be refused as a bad configuration or ignored — both are judged all-or-nothing (the fault-free SKR or nothing); an output that cannot be written is judged by the property alone (the model's write cannot fail); faults by permission bits are not effective when the check runs as uid 0 (counted, not judged)",
+    "the byte-for-byte comparison lists the members of sets (signatures of a bundle, keys of equal tag, algorithms of a policy) in the order the written file shows: the iteration order of a Python set is not part of the property",
 ]
-TRUSTED = ["harness/p11emu.py token emulator", "harness/ceremony_run.py entry-point driver and independent SKR judge (ElementTree, dnspython)"]
+TRUSTED = ["harness/p11emu.py token emulator (CKA_LABEL as a Python str, as PyKCS11 hands it over: UTF-8 on the wire)", "harness/ceremony_run.py entry-point driver and independent SKR judge (ElementTree, dnspython)", "lean/Kskm/SkrXml.lean (C11's writer model, driver kskm_driver_pkge) for the byte-for-byte comparison of written files"]
 
 FAULTS_BY_OP = {
     "findObjects": ["error", "missing", "duplicate"],
@@ -325,8 +327,15 @@ def run(tier: str, driver_ok: bool) -> Result:
         "bundle; one identifier for two ZSKs across / within bundles) and publish-/retire-safety violations as the only violation x previous-SKR source "
         "(configuration, command line, both, both reversed); (b'') output path absent / short / 300 kB / earlier SKR / longer earlier SKR x successful, "
         "declined, faulted, refused-after-signing runs; schema slots listed out of order; (c) exit statuses via main() with file names from the "
-        "configuration and from the command line; every written SKR re-loaded (load_skr) and judged independently (ElementTree + dnspython); "
-        "non-trivial = distinct (ceremony, fault position, kind | gate | answer | output-path content | previous-SKR source)"
+        "configuration and from the command line; (f) file-name faults: previous SKR / KSR / output / configuration file x name from the command line / "
+        "the configuration x the other source naming nothing / the right file / a stale file x {typo beside the right file, directory, empty file, no "
+        "read permission, dangling symlink, path through a file | output: directory, missing directory, path through a file, no write permission} x "
+        "ksrsigner() / main(); (h) request id re-used alone / bundle id re-used alone / replayed id x serial of the previous SKR, another, 0, 2^31; "
+        "(t) honest ceremony, honest successors (previous SKR = the file just written; configuration / command line / main()), id re-use, declined, "
+        "faulted in 4 non-ASCII spellings of KSK labels, ZSK identifiers, request and bundle ids; every written SKR re-loaded (load_skr), judged "
+        "independently (ElementTree + dnspython), read alike by the repository's loader and a standard XML parser, and equal byte for byte to the model "
+        "writer's UTF-8 text; non-trivial = distinct (ceremony, fault position, kind | gate | answer | output-path content | previous-SKR source | "
+        "file-name fault | spelling)"
     )
     r = lib.rng("C03")
     work = R.scratch_dir("C03")
@@ -799,7 +808,7 @@ def file_fault_stream(j: Judge, r: Any, work: Path, tier: str) -> None:
 def text_stream(j: Judge, r: Any, work: Path, tier: str) -> None:
     """(t) ceremonies spelled with non-ASCII but legal text in everything that is copied into the SKR."""
     res = j.res
-    n = 3
+    n = 3 if tier == "quick" else 9
     for name, text in R.TEXT_PROFILES.items():
         sc = R.apply_text(ceremony_scenario(r, n, 2), text)
         case0 = {"n": n, "text": name, "ksk_labels": [k["label"] for k in sc.ksks.values()], "zsk_identifiers": [z[0] for z in sc.zsks], "request_id": sc.req_id}
